@@ -113,3 +113,7 @@ package selftest
 //@ func localInPostBad
 //@   requires h != nil
 //@   ensures stored: r0 == nil ==> h.x == last
+
+//@ func lenBits
+//@   requires j >= 2
+//@   ensures topbit: r0 >= 1 && r0 <= 64 && (j-1)&(uint64(1)<<uint(r0-1)) != 0
